@@ -9,7 +9,7 @@ import traceback
 
 from .contract import load_registry
 from .ctx import Ctx
-from .engine import Unsupported
+from .engine import SpecError, Unsupported
 from .exec import Exec
 from .source import SourceIndex
 
@@ -81,6 +81,12 @@ def verify_functions(keys, *, prop=None, repo='/repo', scope=None, timeout_ms=10
         except Unsupported as ex:
             out['unsupported'][fkey] = str(ex)
             rec['unsupported'] = str(ex)
+        except SpecError as ex:
+            # a clause names a parameter / local / keyword argument that the current code no longer has (renamed or restructured
+            # code): the contract cannot be evaluated against this body, so the function is undecided here -- never a verdict
+            why = f'the contract no longer matches the code ({str(ex)[:200]})'
+            out['unsupported'][fkey] = why
+            rec['unsupported'] = why
         except (TypeError, NotImplementedError, AttributeError, KeyError, IndexError, z3.Z3Exception) as ex:
             # a construct the translation does not handle: the function is OUTSIDE THE FRAGMENT (never a verdict); the
             # traceback tail is kept so that a genuine engine bug is visible in the evidence
